@@ -2,6 +2,7 @@ package rules
 
 import (
 	"fmt"
+	"go/constant"
 	"go/token"
 	"go/types"
 
@@ -223,19 +224,9 @@ func checkPredicate(prog *core.Program, r3 *core.RuleRun, pred *ssa.Function) {
 		"the predicate does not compare its argument, unchanged, for equality with an element of the filter list (e.g. it maps both to classes first): types that are not listed can match")
 	// returns: true only under the comparison's true edge, false elsewhere
 	okRet := okCmp
-	allInstrs(pred, func(ins ssa.Instruction) {
-		r, ok := ins.(*ssa.Return)
-		if !ok {
-			return
-		}
-		c, isConst := r.Results[0].(*ssa.Const)
-		if !isConst || c.Value == nil {
-			okRet = false
-			return
-		}
-		isTrue := c.Value.ExactString() == "true"
-		under := false
-		for b := r.Block(); b != nil && cmp != nil; b = b.Idom() {
+	// underTrue: block b can only be reached through the true edge of the comparison
+	underTrue := func(b *ssa.BasicBlock) bool {
+		for ; b != nil && cmp != nil; b = b.Idom() {
 			id := b.Idom()
 			if id == nil {
 				break
@@ -244,14 +235,44 @@ func checkPredicate(prog *core.Program, r3 *core.RuleRun, pred *ssa.Function) {
 				for si, sx := range id.Succs {
 					if sx == b {
 						if cond, truth, ok := core.IfEdge(id, si); ok && cond == ssa.Value(cmp) && truth {
-							under = true
+							return true
 						}
 					}
 				}
 			}
 		}
-		if isTrue != under {
+		return false
+	}
+	// the result, whether returned directly or collected in a variable (`matched = true; break`): every constant that
+	// can flow into it is true exactly where the comparison held
+	var leaf func(v ssa.Value, at *ssa.BasicBlock, seen map[ssa.Value]bool)
+	leaf = func(v ssa.Value, at *ssa.BasicBlock, seen map[ssa.Value]bool) {
+		switch x := v.(type) {
+		case *ssa.Const:
+			if x.Value == nil || x.Value.Kind() != constant.Bool {
+				okRet = false
+				return
+			}
+			if constant.BoolVal(x.Value) != underTrue(at) {
+				okRet = false
+			}
+		case *ssa.Phi:
+			if seen[x] {
+				return
+			}
+			seen[x] = true
+			for i, e := range x.Edges {
+				if i < len(x.Block().Preds) {
+					leaf(e, x.Block().Preds[i], seen)
+				}
+			}
+		default:
 			okRet = false
+		}
+	}
+	allInstrs(pred, func(ins ssa.Instruction) {
+		if r, ok := ins.(*ssa.Return); ok && len(r.Results) == 1 {
+			leaf(r.Results[0], r.Block(), map[ssa.Value]bool{})
 		}
 	})
 	r3.Check(okRet, name+":returns", pred.Pos(), "true exactly under the equality, false after the range", "the predicate's result is not 'some element equals the argument'")
